@@ -103,8 +103,11 @@ def gen_cb(d: D, prof: dict, depth: int) -> Optional[dict]:
             cb["yield"] = d.i(1, 2)
     if d.p(prof["p_cb_raise"]):
         cb["raise"] = True
-    if d.p(0.12):
+    r = d.i(0, 99)
+    if r < 12:
         cb["partial"] = True
+    elif r < 22 and not cb["async"]:
+        cb["obj"] = True
     if depth == 0 and d.p(prof["p_embedded"]):
         cb["op"] = gen_op(d, prof, d.pick(prof["embedded_ops"]), depth + 1)
     return cb
@@ -171,6 +174,8 @@ def gen_spawn(d: D, prof: dict, depth: int, op: Optional[dict] = None) -> dict:
         op["n"] = n_hint = d.i(0, prof["max_elems"])
         if d.p(0.85):
             op["nc"] = d.i(1, prof["max_nc"])
+        if d.p(prof.get("p_iter_raise", 0.0)) and op["n"]:
+            op["iter_raise_at"] = d.i(0, op["n"] - 1)
         if d.p(0.1):
             op["as_list"] = True
         elif depth == 0 and d.p(prof["p_embedded"] * 0.5) and op["n"]:
@@ -185,7 +190,7 @@ def gen_spawn(d: D, prof: dict, depth: int, op: Optional[dict] = None) -> dict:
     if d.p(prof["p_plain"]) and "callfault" not in op["worker"] and "call_op" not in op["worker"]:
         op["plain"] = True
     if d.p(prof["p_gname"]):
-        op["gname"] = [d.i(0, 5), d.i(0, 2)]
+        op["gname"] = [d.i(0, 8), d.i(0, 2)]
     return op
 
 
@@ -234,7 +239,7 @@ def gen_op(d: D, prof: dict, name: str, depth: int = 0) -> dict:
         bad = []
         if d.p(0.6):
             bad.append("func")
-            op["func_kind"] = d.i(0, 3)
+            op["func_kind"] = d.i(0, 4)
         if d.p(0.5) or not bad:
             bad.append("nc")
             op["nc_val"] = d.i(0, 2)
